@@ -71,6 +71,13 @@ func init() {
 		"(*sync.RWMutex).Unlock":                   inUnlock,
 		"(*sync.RWMutex).RLock":                    inRLock,
 		"(*sync.RWMutex).RUnlock":                  inRUnlock,
+		"(*sync.Mutex).Lock":                       inLock,
+		"(*sync.Mutex).Unlock":                     inUnlock,
+		"(*sync.Once).Do":                          inOnceDo,
+		"(*sync.Map).Load":                         inSyncMapLoad,
+		"(*sync.Map).Store":                        inSyncMapStore,
+		"(*sync.Map).LoadOrStore":                  inSyncMapLoadOrStore,
+		"(*sync.Map).Delete":                       inSyncMapDelete,
 		"fmt.Errorf":                               inErrorf,
 		"fmt.Sprintf":                              inSprintf,
 		"fmt.Sprint":                               func(m *Machine, fr *frame, fn *ssa.Function, a []Value) Value { return Str{S: "<sprint>"} },
@@ -465,6 +472,19 @@ func inPoolGet(m *Machine, fr *frame, fn *ssa.Function, a []Value) Value {
 func inPoolPut(m *Machine, fr *frame, fn *ssa.Function, a []Value) Value {
 	p := a[0].(*Value)
 	m.poolSync(p, true)
+	// an object that is already in the pool is being released a second time: two later
+	// Gets would hand the same object to two users at once
+	if i, ok := a[1].(Iface); ok {
+		if ptr, ok := i.V.(*Value); ok && ptr != nil {
+			for _, f := range m.poolFree[p] {
+				if fi, ok := f.(Iface); ok {
+					if fp, ok := fi.V.(*Value); ok && fp == ptr {
+						m.violate("pooled object released twice", m.where(fr, nil), nil)
+					}
+				}
+			}
+		}
+	}
 	m.poolFree[p] = append(m.poolFree[p], a[1])
 	return nil
 }
@@ -752,4 +772,58 @@ func inQuoteMeta(m *Machine, fr *frame, fn *ssa.Function, a []Value) Value {
 		r = concat(r, s.slice(i, i+1))
 	}
 	return r
+}
+
+// sync.Once: the function runs on the first Do of a path (single logical thread at a time).
+func inOnceDo(m *Machine, fr *frame, fn *ssa.Function, a []Value) Value {
+	p := a[0].(*Value)
+	if m.onces == nil {
+		m.onces = map[*Value]bool{}
+	}
+	if m.onces[p] {
+		return nil
+	}
+	m.onces[p] = true
+	return m.callValue(fr, a[1], nil)
+}
+
+// sync.Map: modelled as an engine map per object (keys compared like map keys).
+func (m *Machine) syncMap(p Value) *Map {
+	ptr := p.(*Value)
+	if m.syncMaps == nil {
+		m.syncMaps = map[*Value]*Map{}
+	}
+	mp := m.syncMaps[ptr]
+	if mp == nil {
+		mp = newMap()
+		m.syncMaps[ptr] = mp
+	}
+	return mp
+}
+
+func inSyncMapLoad(m *Machine, fr *frame, fn *ssa.Function, a []Value) Value {
+	mp := m.syncMap(a[0])
+	if i := m.mapFind(mp, a[1]); i >= 0 {
+		return Tuple{mp.vals[i], Bool{B: true}}
+	}
+	return Tuple{Iface{}, Bool{B: false}}
+}
+
+func inSyncMapStore(m *Machine, fr *frame, fn *ssa.Function, a []Value) Value {
+	m.mapUpdate(m.syncMap(a[0]), a[1], a[2])
+	return nil
+}
+
+func inSyncMapLoadOrStore(m *Machine, fr *frame, fn *ssa.Function, a []Value) Value {
+	mp := m.syncMap(a[0])
+	if i := m.mapFind(mp, a[1]); i >= 0 {
+		return Tuple{mp.vals[i], Bool{B: true}}
+	}
+	m.mapUpdate(mp, a[1], a[2])
+	return Tuple{a[2], Bool{B: false}}
+}
+
+func inSyncMapDelete(m *Machine, fr *frame, fn *ssa.Function, a []Value) Value {
+	m.mapDelete(m.syncMap(a[0]), a[1])
+	return nil
 }
